@@ -150,7 +150,7 @@ class CallMixin:
             return self._bind(m[0], m[1], base, cell.refcls)
         if isinstance(base, OldView):
             cell = self.old_heap[base.ref.addr]
-            if isinstance(cell, MapCell):
+            if isinstance(cell, (MapCell, DictCell)):
                 return BoundMethod(("dict", name), base)
             return self._wrap_old(self._obj_attr(base.ref, cell, name, old=True))
         if isinstance(base, Ref):
